@@ -301,8 +301,13 @@ def rule_aggregation(ctx):
         if cfront.basename(fn.get('_locfile') or fn.get('_file')) != 'tree.c':
             continue
         x1.check_function(tu, fn, ctx.report, stats, 'R15.6')
-    ctx.covered('R15.6', 'x/y/z statement triples in tree.c (cell mass / centre of mass aggregation, cell geometry) are one formula under an axis permutation',
-                stats['groups'], floor=6, samples=stats['samples'])
+    tu2 = cfront.load_tu('rebound.c')
+    for name in ('reb_simulation_configure_box', 'reb_simulation_init'):
+        fn = tu2.funcs.get(name)
+        anchor(fn is not None, 'function %s in rebound.c' % name)
+        x1.check_function(tu2, fn, ctx.report, stats, 'R15.6')
+    ctx.covered('R15.6', 'x/y/z statement triples in tree.c (cell mass / centre of mass aggregation, cell geometry) and of the box set-up (boxsize, root counts) are one formula under an axis permutation',
+                stats['groups'], floor=10, samples=stats['samples'])
 
 
 def run(ctx):
